@@ -5,7 +5,7 @@ package tensor
 // Variant of zz_verif_pools.go for the free-running -race pass: the library keeps the real package sync (the shim's
 // own mutex would add happens-before edges the real per-P pools do not have).
 
-func VerifResetPools() { VerifDrainChanPools(); usePool = true }
+func VerifResetPools() { VerifDrainChanPools(); VerifResetLazyGlobals(); usePool = true }
 
 func VerifIntsPoolItems() [][][]int { return nil }
 
